@@ -42,6 +42,18 @@ func format(tr *tokenReader, w io.Writer) error {
 			opCodeBytes = append(opCodeBytes, '\n')
 			ew.SafeWrite(opCodeBytes)
 			newlineBeforeNextRecord = false
+		case tokenKindImport:
+			if newlineBeforeNextRecord {
+				ew.SafeWrite([]byte{'\n'})
+			}
+			// import "<PATH>"
+			importBytes := t.concrete
+			tr.Next()
+			importBytes = append(importBytes, ' ')
+			importBytes = append(importBytes, tr.Token().concrete...)
+			importBytes = append(importBytes, '\n')
+			ew.SafeWrite(importBytes)
+			newlineBeforeNextRecord = false
 		case tokenKindLineComment:
 			cmtBytes := t.concrete
 			ew.SafeWrite(cmtBytes)
